@@ -140,9 +140,10 @@ class ComplexStep(ApproximationScheme):
             # Turn off complex step.
             system._set_complex_step_mode(False)
 
-        system._inputs.set_val(saved_inputs)
-        system._outputs.set_val(saved_outputs)
-        system._residuals.set_val(saved_resids)
+            # also when an exception interrupted a point, put back what we found.
+            system._inputs.set_val(saved_inputs)
+            system._outputs.set_val(saved_outputs)
+            system._residuals.set_val(saved_resids)
 
     def _get_multiplier(self, delta):
         """
